@@ -20,6 +20,7 @@
 #include <algorithm>
 #include <chrono>
 #include <unistd.h>
+#include "xbuf.hpp"
 
 namespace vf {
 
@@ -139,13 +140,13 @@ struct Ev {
     std::vector<Failure> failures;
     bool frozen = false;                           // set while rapidcheck shrinks: stop counting
 
-    void eval(uint64_t k = 1) { if (!frozen) evaluations += k; }
+    void eval(uint64_t k = 1) { vfTick(); if (!frozen) evaluations += k; }
     void label(const std::string &l, uint64_t k = 1) { if (!frozen) labels[l] += k; }
     void nt(uint64_t h) {
         if (frozen) return;
         if (nontrivial.size() < nontrivialCap) nontrivial.insert(h); else saturated = true;
     }
-    void ntCount(uint64_t k = 1) { if (!frozen) ntEnum += k; }
+    void ntCount(uint64_t k = 1) { vfTick(); if (!frozen) ntEnum += k; }
     // keep the 1st..3rd and then exponentially rarer samples, at most 12
     bool wantSample() {
         if (frozen) return false;
@@ -209,6 +210,7 @@ inline void deathCb() {
     (void) !write(1, m, strlen(m)); (void) !write(1, c.path, strlen(c.path)); (void) !write(1, "\n", 1);
 }
 inline void armCase(const std::string &text) {
+    vfTick();
     CurCase &c = curCase();
     c.len = std::min(text.size(), sizeof c.text);
     memcpy(c.text, text.data(), c.len);
